@@ -161,6 +161,42 @@ fn history_phase(sp: &Space, acc: &mut Acc) {
     }
 }
 
+fn scale_phase(sp: &Space, acc: &mut Acc, max: usize) {
+    let lists = super::c09::scale_operands(&sp.g, &["1", "2", "1.5", "1/2", "-0.0", "0.0", "16777217", "3.0", "-3", "16777216.0"], max);
+    let mut all_ops: Vec<&str> = PREDS.to_vec();
+    all_ops.extend(EXTREMA);
+    let (lr, ops) = (&lists, &all_ops);
+    let part = par::sweep(
+        (lists.len() * all_ops.len()) as u64,
+        256,
+        |_| setup_interp(&sp.g),
+        |it: &mut Interp, acc: &mut Acc, i| {
+            let op = ops[i as usize % ops.len()];
+            let idx = &lr[i as usize / ops.len()];
+            let out = it.eval(&case_text(op, idx));
+            let args: Vec<RNum> = idx.iter().map(|k| sp.g[*k].val).collect();
+            acc.evals += 1;
+            acc.count("scale ladder: operand lists of length 3..N", 1);
+            acc.distinct_hash(hash_of(&(op, &out, idx.len() % 2)));
+            match judge(op, &args, &out) {
+                Verdict::Ok => {}
+                Verdict::Excluded(why) => acc.exclude(why, || format!("{} => {}", case_pretty(&sp.g, op, idx), out)),
+                Verdict::Bad(why) => acc.mismatch(
+                    Mismatch {
+                        idx: u64::MAX - 3,
+                        case: format!("[{} operands] {}", idx.len(), case_pretty(&sp.g, op, idx)),
+                        expected: why,
+                        observed: format!("{}", out),
+                        payload: json!({"op": op, "operands": idx.iter().map(|k| sp.g[*k].text.clone()).collect::<Vec<_>>() }),
+                    },
+                    None,
+                ),
+            }
+        },
+    );
+    acc.merge(part);
+}
+
 pub fn run(ctx: &Ctx) -> i32 {
     let sp = Space::new(ctx.thorough());
     let total = sp.total();
@@ -198,6 +234,8 @@ pub fn run(ctx: &Ctx) -> i32 {
     );
     let mut acc = acc;
     history_phase(&sp, &mut acc);
+    let scale = if ctx.thorough() { 300 } else { 100 };
+    scale_phase(&sp, &mut acc, scale);
     report::finish(
         acc,
         RunInfo {
@@ -205,8 +243,8 @@ pub fn run(ctx: &Ctx) -> i32 {
             tier: ctx.tier_name(),
             seed: ctx.seed,
             exhaustive: true,
-            rule: format!("{:?} and {:?} on all pairs and all ordered triples of G, eqv? on all pairs; plus every history (failing call of any operation with a non-number operand after numbers of either exactness) x (any operation on any pair of a 10-number sub-grid) on one interpreter; |G|={} (literals and computed values of every representation); distinct = distinct (operation, outcome, exactness pattern)", PREDS, EXTREMA, sp.g.len()),
-            bounds: json!({"grid": sp.g.len(), "pairs": sp.n2 + sp.ne, "triples": sp.n3}),
+            rule: format!("{:?} and {:?} on all pairs and all ordered triples of G, eqv? on all pairs; plus every history (failing call of any operation with a non-number operand after numbers of either exactness) x (any operation on any pair of a 10-number sub-grid) on one interpreter; every predicate and max / min on operand lists of every length 3..N (all the same value, two values alternating, one operand of another kind first / in the middle / last; 10 values); |G|={} (literals and computed values of every representation); distinct = distinct (operation, outcome, exactness pattern)", PREDS, EXTREMA, sp.g.len()),
+            bounds: json!({"grid": sp.g.len(), "pairs": sp.n2 + sp.ne, "triples": sp.n3, "scale_ladder_max_operands": scale}),
             assumptions: vec!["reference order: cross-multiplication on i128 rationals; exact vs inexact after conversion to binary32".into()],
             wall_s: ctx.elapsed(),
             extra: json!({}),
